@@ -11,7 +11,8 @@ THOROUGH_SCALE = 3
 LEVEL = "exploration"
 RULE = ("spec = id-encoded dataset (n 2..48, C 2..10, equal shapes or - with mixup_unify_shapes_mode='pad_or_cut_end' - per-sample "
         "shapes differing in any axis), mixup_p in (0,1], alpha in (0.05,4], seed or None, indices, request form (x / class / "
-        "x class / class x, with index or other items interleaved); oracle = the result is (x_i, onehot(c_i)) or there are j and "
+        "x class / class x, with index items interleaved, or any generated sequence of x / class / index of length 1-5, repeats "
+        "included - every slot must be filled); oracle = the result is (x_i, onehot(c_i)) or there are j and "
         "w in [0,1] with x' = w*x_i+(1-w)*refit(x_j, shape_i) and y' = w*e_ci+(1-w)*e_cj (own 6-line refit); labels non-negative, "
         "sum 1; with a seed all request forms give identical x and y for the same i; with p=1 over n>=32 distinct samples at most "
         "half may look untouched (false-alarm probability < 1e-30); non-trivial = mixed result with j != i, or differing shapes, "
